@@ -1,4 +1,1098 @@
-//! harness family c14 (stub until the family is built)
+//! harness family c14 — "Tokenized programs are faithful and re-readable".
+//!
+//! For generated VALID Applesoft / Integer BASIC / Merlin sources the real a2kit code is run:
+//! `t = tokenize(src, addr)`, `s = detokenize(t)`, `t2 = tokenize(s, addr)`.
+//!   direct oracles (real code only):
+//!     * `s` is accepted again (`verify_str` + `tokenize`),
+//!     * `t2 == t` modulo blanks at the head of REM / DATA payloads,
+//!     * structure of `t`: link fields = address of the following line for the load address,
+//!       line numbers in order of appearance, Integer length bytes exact, end marker;
+//!   model-vs-implementation requests (Lean driver family `c14`):
+//!     * `asmA/asmI`  framing of the tokenized lines (link fields, length bytes, overflow panic),
+//!     * `wfA/wfI`    the model's structural predicate must say `true <line numbers>`,
+//!     * `detokA/I`   model detokenizer == real detokenizer byte for byte, on the valid streams and on
+//!                    mutated / random byte strings (outcome classes ok / err / panic).
+//! Case indices: Applesoft `idx = 0..`, Integer `idx = 100000..`, Merlin `idx = 200000..`,
+//! raw detokenizer streams `idx = 300000..`.
 use crate::util::*;
+use a2kit::lang::applesoft::tokenizer::Tokenizer as ATok;
+use a2kit::lang::integer::tokenizer::Tokenizer as ITok;
+use a2kit::lang::merlin::tokenizer::Tokenizer as MTok;
 
-pub fn run(_ctx: &mut Ctx) {}
+// ------------------------------------------------------------------------------------------------
+// small helpers
+
+fn accepted_a(src: &str) -> bool { a2kit::lang::verify_str(tree_sitter_applesoft::language(), src).is_ok() }
+fn accepted_i(src: &str) -> bool { a2kit::lang::verify_str(tree_sitter_integerbasic::language(), src).is_ok() }
+fn accepted_m(src: &str) -> bool { a2kit::lang::verify_str(tree_sitter_merlin6502::language(), src).is_ok() }
+
+fn tok_a(src: &str, addr: u16) -> Result<Result<Vec<u8>, String>, String> {
+    guarded(|| ATok::new().tokenize(src, addr).map_err(|e| e.to_string()))
+}
+fn detok_a(t: &[u8]) -> Result<Result<String, String>, String> {
+    guarded(|| ATok::new().detokenize(t).map_err(|e| e.to_string()))
+}
+fn tok_i(src: &str) -> Result<Result<Vec<u8>, String>, String> {
+    guarded(|| ITok::new().tokenize(src.to_string()).map_err(|e| e.to_string()))
+}
+fn detok_i(t: &[u8]) -> Result<Result<String, String>, String> {
+    guarded(|| ITok::new().detokenize(t).map_err(|e| e.to_string()))
+}
+fn tok_m(src: &str) -> Result<Result<Vec<u8>, String>, String> {
+    guarded(|| MTok::new().tokenize(src.to_string()).map_err(|e| e.to_string()))
+}
+fn detok_m(t: &Vec<u8>) -> Result<Result<String, String>, String> {
+    guarded(|| MTok::new().detokenize(t).map_err(|e| e.to_string()))
+}
+
+/// canonical answer of a detokenizer run, as the Lean driver prints it
+fn show_detok(r: &Result<Result<String, String>, String>) -> String {
+    match r {
+        Ok(Ok(s)) => format!("ok {}", hx(s.as_bytes())),
+        Ok(Err(_)) => "err".to_string(),
+        Err(_) => "panic".to_string(),
+    }
+}
+
+/// split an Applesoft token stream into (line number, body) by scanning for the 00 terminators
+/// (harness-side reader, independent of the Lean model); None if the stream is not of that shape
+fn split_a(t: &[u8]) -> Option<Vec<(u16, Vec<u8>)>> {
+    let mut i = 0;
+    let mut out = Vec::new();
+    loop {
+        if i + 2 == t.len() && t[i] == 0 && t[i + 1] == 0 { return Some(out); }
+        if i + 4 > t.len() { return None; }
+        let num = t[i + 2] as u16 + 256 * t[i + 3] as u16;
+        let mut j = i + 4;
+        while j < t.len() && t[j] != 0 { j += 1; }
+        if j >= t.len() { return None; }
+        out.push((num, t[i + 4..j].to_vec()));
+        i = j + 1;
+    }
+}
+
+/// follow the link fields as the ROM does; returns the line numbers visited if every link is the
+/// address of the next line (byte before it is the 00 terminator) and the walk ends on 00 00 at the end
+fn walk_links_a(t: &[u8], base: usize) -> Option<Vec<u16>> {
+    let mut off = 0usize;
+    let mut nums = Vec::new();
+    loop {
+        if off + 2 > t.len() { return None; }
+        let link = t[off] as usize + 256 * t[off + 1] as usize;
+        if link == 0 { return if off + 2 == t.len() { Some(nums) } else { None }; }
+        if off + 4 > t.len() { return None; }
+        nums.push(t[off + 2] as u16 + 256 * t[off + 3] as u16);
+        if link < base + off + 5 { return None; }
+        let next = link - base;
+        if next > t.len() || t[next - 1] != 0 { return None; }
+        if t[off + 4..next - 1].iter().any(|b| *b == 0) { return None; }
+        off = next;
+    }
+}
+
+/// follow the Integer BASIC length bytes; returns (line number, body without the EOL token)
+fn walk_len_i(t: &[u8]) -> Option<Vec<(u16, Vec<u8>)>> {
+    let mut off = 0usize;
+    let mut out = Vec::new();
+    while off < t.len() {
+        let len = t[off] as usize;
+        if len < 4 || off + len > t.len() { return None; }
+        if t[off + len - 1] != 1 { return None; }
+        out.push((t[off + 1] as u16 + 256 * t[off + 2] as u16, t[off + 3..off + len - 1].to_vec()));
+        off += len;
+    }
+    Some(out)
+}
+
+/// remove the blanks directly after REM / DATA tokens of an Applesoft line body
+fn strip_head_a(b: &[u8]) -> Vec<u8> {
+    let mut out = Vec::new();
+    let mut i = 0;
+    while i < b.len() {
+        let c = b[i];
+        out.push(c);
+        i += 1;
+        if c == 0x22 {
+            while i < b.len() { out.push(b[i]); i += 1; if b[i - 1] == 0x22 { break; } }
+        } else if c == 0xB2 {
+            while i < b.len() && b[i] == 0x20 { i += 1; }
+            while i < b.len() { out.push(b[i]); i += 1; }
+        } else if c == 0x83 {
+            while i < b.len() && b[i] == 0x20 { i += 1; }
+            let mut q = 0;
+            while i < b.len() {
+                if b[i] == 0x3A && q % 2 == 0 { break; }
+                if b[i] == 0x22 { q += 1; }
+                out.push(b[i]);
+                i += 1;
+            }
+        }
+    }
+    out
+}
+
+/// remove the (negative ASCII) blanks directly after the REM token of an Integer BASIC line body
+fn strip_head_i(b: &[u8]) -> Vec<u8> {
+    let mut out = Vec::new();
+    let mut i = 0;
+    while i < b.len() {
+        let c = b[i];
+        out.push(c);
+        i += 1;
+        if c == 0x28 {
+            while i < b.len() { out.push(b[i]); i += 1; if b[i - 1] == 0x29 { break; } }
+        } else if c == 0x5D {
+            while i < b.len() && b[i] == 0xA0 { i += 1; }
+            while i < b.len() { out.push(b[i]); i += 1; }
+        } else if (0xB0..=0xB9).contains(&c) {
+            let mut k = 0;
+            while i < b.len() && k < 2 { out.push(b[i]); i += 1; k += 1; }
+        } else if c >= 0x80 {
+            while i < b.len() && b[i] >= 0x80 { out.push(b[i]); i += 1; }
+        }
+    }
+    out
+}
+
+/// stable signature of a panic site: file below `src/`, no line number
+fn psig(p: &str) -> String {
+    let site = p.split(" [").next().unwrap_or(p);
+    let site = match site.find("src/") { Some(i) => &site[i..], None => site };
+    format!("panic:{}", site.split(':').next().unwrap_or(site))
+}
+
+const I_KEYWORDS: [&str; 50] = ["REM", "RUN", "DEL", "LIST", "NEW", "CLR", "AUTO", "MAN", "LOAD", "SAVE", "CON", "HIMEM", "LOMEM", "LET", "DIM", "TAB", "END",
+    "INPUT", "FOR", "NEXT", "RETURN", "GOSUB", "GOTO", "IF", "PRINT", "POKE", "COLOR", "PLOT", "HLIN", "VLIN", "VTAB", "POP", "NODSP", "NOTRACE", "DSP",
+    "TRACE", "PR", "IN", "CALL", "TEXT", "GR", "NOT", "PEEK", "RND", "SGN", "ABS", "PDL", "LEN", "ASC", "SCRN"];
+
+/// failure class of an Integer BASIC round-trip failure, from the token stream:
+/// a variable name that begins with a keyword (the external grammar is ambiguous there), or a byte in a
+/// string / REM payload that the detokenizer prints in a form the tokenizer does not reproduce
+fn classify_i(t: &[u8], generic: &str) -> String {
+    let mut escape_class = false;
+    if let Some(lines) = walk_len_i(t) {
+        for (_, b) in lines {
+            let mut i = 0;
+            while i < b.len() {
+                let c = b[i];
+                i += 1;
+                if c == 0x28 || c == 0x5D {
+                    while i < b.len() && !(c == 0x28 && b[i] == 0x29) {
+                        let x = b[i];
+                        if x == 0x80 || (0xE1..=0xFA).contains(&x) || (c == 0x28 && x == 0xA2) { escape_class = true; }
+                        i += 1;
+                    }
+                    i += 1;
+                } else if (0xB0..=0xB9).contains(&c) { i += 2; }
+                else if c >= 0x80 {
+                    let mut name = String::new();
+                    name.push((c - 0x80) as char);
+                    while i < b.len() && b[i] >= 0x80 { name.push((b[i] - 0x80) as char); i += 1; }
+                    if I_KEYWORDS.iter().any(|k| name.starts_with(k)) { return "c14/integer/name-begins-with-keyword".to_string(); }
+                }
+            }
+        }
+    }
+    if escape_class { "c14/integer/escaped-byte-not-reproduced".to_string() } else { generic.to_string() }
+}
+
+/// code part of an Applesoft program text, normalised: per line, blanks removed and upper case outside
+/// strings, `?` read as PRINT, string contents dropped, everything after the first REM / DATA dropped
+/// (payloads are compared through the token bytes).  Used to check that the listing says the same
+/// thing as the source, not merely that it re-tokenizes to the same bytes.
+fn norm_code_a(src: &str) -> Vec<String> {
+    let mut out = Vec::new();
+    for line in src.lines() {
+        if line.trim_start().is_empty() { continue; }
+        let mut n = String::new();
+        let mut in_str = false;
+        for c in line.chars() {
+            if c == '"' { in_str = !in_str; n.push('"'); continue; }
+            if in_str || c == ' ' { continue; }
+            if c == '?' { n += "PRINT"; } else { n.push(c.to_ascii_uppercase()); }
+            if n.ends_with("REM") || n.ends_with("DATA") { break; }
+        }
+        out.push(n);
+    }
+    out
+}
+
+fn nat_list(v: &[u16]) -> String {
+    if v.is_empty() { "-".to_string() } else { v.iter().map(|n| n.to_string()).collect::<Vec<_>>().join(",") }
+}
+
+// ------------------------------------------------------------------------------------------------
+// source generators
+
+struct Gen { r: Rng, lower: usize, tight: usize, inner: usize }
+
+const NAMES: [&str; 22] = ["A", "B", "I", "J", "K", "X", "Y", "Z", "X1", "Y2", "AB", "N9", "Q", "ZZ", "LAST", "C3PO", "COUNT", "NAME", "W8", "PI", "MAX", "HI"];
+/// names that embed a keyword (valid only where the split reads as an expression)
+const KWNAMES: [&str; 12] = ["SCORE", "TOTAL", "HOMER", "ATOM", "LETTER", "BEND", "FRONT", "GRID", "XORY", "BANDC", "ANOTB", "CATB"];
+const SPCH: &[u8] = b"+-*/^=<>().;%$#?&'@![]{}|_`~,:";
+
+impl Gen {
+    fn new(r: Rng) -> Self {
+        let mut g = Gen { r, lower: 0, tight: 0, inner: 0 };
+        g.lower = *g.r.pick(&[0usize, 0, 100, 50]);
+        g.tight = *g.r.pick(&[0usize, 20, 60, 100]);
+        g.inner = *g.r.pick(&[0usize, 0, 0, 8]);
+        g
+    }
+    fn case(&mut self, s: &str) -> String {
+        let l = self.lower;
+        s.chars().map(|c| if self.r.chance(l) { c.to_ascii_lowercase() } else { c }).collect()
+    }
+    /// keyword with case / inner-blank variants (`inner_ok` = the grammar allows blanks inside)
+    fn kw(&mut self, s: &str) -> String {
+        let mut out = String::new();
+        let n = s.chars().count();
+        for (i, c) in s.chars().enumerate() {
+            out.push(c);
+            if i + 1 < n && self.inner > 0 && self.r.chance(self.inner) && s != "ATN" { out.push(' '); }
+        }
+        self.case(&out)
+    }
+    /// separator between two lexical items
+    fn sp(&mut self) -> &'static str {
+        if self.r.chance(self.tight) { "" } else if self.r.chance(12) { "  " } else { " " }
+    }
+    fn name(&mut self) -> String {
+        let n = if self.r.chance(6) { self.r.pick(&KWNAMES).to_string() } else if self.r.chance(80) { self.r.pick(&NAMES).to_string() } else {
+            let mut s = String::new();
+            s.push((b'A' + self.r.below(26) as u8) as char);
+            for _ in 0..self.r.below(4) {
+                if self.r.chance(30) { s.push((b'0' + self.r.below(10) as u8) as char); } else { s.push((b'A' + self.r.below(26) as u8) as char); }
+            }
+            s
+        };
+        self.case(&n)
+    }
+    fn int(&mut self, max: usize) -> String {
+        let v = match self.r.below(6) { 0 => self.r.below(10), 1 => self.r.below(256), 2 => max, 3 => 0, _ => self.r.below(max + 1) };
+        let s = v.to_string();
+        if self.inner > 0 && s.len() > 1 && self.r.chance(10) { format!("{} {}", &s[..1], &s[1..]) } else { s }
+    }
+    fn linenum(&mut self) -> String { self.int(63999) }
+    /// text of a string / REM / DATA payload; `forbid` = bytes that must not be produced
+    fn text(&mut self, maxlen: usize, forbid: &[u8], allow_colon_comma: bool, allow_quote: bool) -> String {
+        let mut s = String::new();
+        let n = self.r.below(maxlen + 1);
+        for _ in 0..n {
+            match self.r.below(14) {
+                0 => {
+                    // escape of an arbitrary byte
+                    let mut b = self.r.byte();
+                    if self.r.chance(40) { b = *self.r.pick(&[0x0au8, 0x0d, 0x04, 0x07, 0x7f, 0x80, 0xff, 0x5c, 0x8d]); }
+                    if forbid.contains(&b) { continue; }
+                    if self.r.chance(50) { s += &format!("\\x{:02x}", b); } else { s += &format!("\\x{:02X}", b); }
+                }
+                1 => { s.push('\\'); if self.r.chance(30) { s += "x5"; } if self.r.chance(20) { s += "\\x5Cx4"; } }
+                2 => s.push(' '),
+                3 => {
+                    let c = *self.r.pick(SPCH);
+                    if (c == b':' || c == b',') && !allow_colon_comma { continue; }
+                    s.push(c as char);
+                }
+                4 => { if allow_quote { s += "\"\""; } }
+                5 => s.push((b'0' + self.r.below(10) as u8) as char),
+                6 => s.push((b'a' + self.r.below(26) as u8) as char),
+                7 => { let k = *self.r.pick(&["PRINT", "rem", "DATA", "TO", "GOTO", "AT", "then", "REM"]); s += k; }
+                _ => s.push((b'A' + self.r.below(26) as u8) as char),
+            }
+        }
+        s
+    }
+}
+
+// ---- Applesoft ---------------------------------------------------------------------------------
+
+struct AG { g: Gen }
+impl AG {
+    fn real(&mut self) -> String {
+        let g = &mut self.g;
+        match g.r.below(7) {
+            0 => format!("{}.{}", g.r.below(100), g.r.below(1000)),
+            1 => format!(".{}", g.r.below(100)),
+            2 => format!("{}.", g.r.below(1000)),
+            3 => format!("{}{}{}", g.r.below(100), g.case("E"), g.r.below(38)),
+            4 => format!("{}.{}{}{}{}", g.r.below(10), g.r.below(100), g.case("E"), g.r.pick(&["+", "-", ""]), g.r.below(38)),
+            5 => format!("{}.{} {} {}", g.r.below(10), g.r.below(10), g.case("E"), g.r.below(10)),
+            _ => ".".to_string(),
+        }
+    }
+    fn subscript(&mut self, d: usize) -> String {
+        let n = 1 + self.g.r.below(2);
+        let mut s = String::from("(");
+        for i in 0..n { if i > 0 { s += ","; } s += &self.aexpr(d + 1); }
+        s + ")"
+    }
+    fn avar(&mut self, d: usize) -> String {
+        let mut s = self.g.name();
+        if self.g.r.chance(25) { s += "%"; }
+        if self.g.r.chance(20) && d < 3 { s += self.g.sp(); s += &self.subscript(d); }
+        s
+    }
+    fn svar(&mut self, d: usize) -> String {
+        let mut s = self.g.name() + "$";
+        if self.g.r.chance(20) && d < 3 { s += &self.subscript(d); }
+        s
+    }
+    fn var(&mut self, d: usize) -> String { if self.g.r.chance(30) { self.svar(d) } else { self.avar(d) } }
+    fn strlit(&mut self, closed: bool) -> String {
+        let t = self.g.text(10, &[0x00, 0x22], true, false);
+        if closed { format!("\"{}\"", t) } else { format!("\"{}", t) }
+    }
+    fn aexpr(&mut self, d: usize) -> String {
+        let k = if d >= 3 { self.g.r.below(4) } else { self.g.r.below(12) };
+        match k {
+            0 | 1 => self.g.int(65535),
+            2 => self.real(),
+            3 | 4 => self.avar(d),
+            5 => {
+                let f = *self.g.r.pick(&["ABS", "ATN", "COS", "EXP", "INT", "LOG", "PDL", "PEEK", "RND", "SGN", "SIN", "SQR", "TAN", "USR", "FRE", "POS"]);
+                format!("{}{}({})", self.g.kw(f), self.g.sp(), self.aexpr(d + 1))
+            }
+            6 => {
+                match self.g.r.below(5) {
+                    0 => format!("{}({})", self.g.kw("LEN"), self.sexpr(d + 1)),
+                    1 => format!("{}({})", self.g.kw("ASC"), self.sexpr(d + 1)),
+                    2 => format!("{}({})", self.g.kw("VAL"), self.sexpr(d + 1)),
+                    3 => format!("{}{}{},{})", self.g.kw("SCRN("), self.g.sp(), self.aexpr(d + 1), self.aexpr(d + 1)),
+                    _ => format!("{}{}{}({})", self.g.kw("FN"), self.g.sp(), self.g.name(), self.aexpr(d + 1)),
+                }
+            }
+            7 => { let op = *self.g.r.pick(&["-", "+", "NOT"]); format!("{}{}{}", self.g.kw(op), self.g.sp(), self.aexpr(d + 1)) }
+            8 | 9 => {
+                let op = *self.g.r.pick(&["+", "-", "*", "/", "^", "AND", "OR", "=", "<", ">", "<=", ">=", "<>", "=<", "=>", "><", "< =", "> ="]);
+                format!("{}{}{}{}{}", self.aexpr(d + 1), self.g.sp(), self.g.kw(op), self.g.sp(), self.aexpr(d + 1))
+            }
+            10 => { let op = *self.g.r.pick(&["=", "<", ">", "<>"]); format!("{}{}{}{}{}", self.sexpr(d + 1), self.g.sp(), op, self.g.sp(), self.sexpr(d + 1)) }
+            _ => format!("({})", self.aexpr(d + 1)),
+        }
+    }
+    fn sexpr(&mut self, d: usize) -> String {
+        let k = if d >= 3 { self.g.r.below(2) } else { self.g.r.below(7) };
+        match k {
+            0 => self.strlit(true),
+            1 => self.svar(d),
+            2 => format!("{}({})", self.g.kw("CHR$"), self.aexpr(d + 1)),
+            3 => {
+                match self.g.r.below(4) {
+                    0 => format!("{}({},{})", self.g.kw("LEFT$"), self.sexpr(d + 1), self.aexpr(d + 1)),
+                    1 => format!("{}({},{})", self.g.kw("RIGHT$"), self.sexpr(d + 1), self.aexpr(d + 1)),
+                    2 => format!("{}({},{},{})", self.g.kw("MID$"), self.sexpr(d + 1), self.aexpr(d + 1), self.aexpr(d + 1)),
+                    _ => format!("{}({},{})", self.g.kw("MID$"), self.sexpr(d + 1), self.aexpr(d + 1)),
+                }
+            }
+            4 => format!("{}({})", self.g.kw("STR$"), self.aexpr(d + 1)),
+            5 => format!("{}{}+{}{}", self.sexpr(d + 1), self.g.sp(), self.g.sp(), self.sexpr(d + 1)),
+            _ => format!("({})", self.sexpr(d + 1)),
+        }
+    }
+    fn expr(&mut self, d: usize) -> String { if self.g.r.chance(35) { self.sexpr(d) } else { self.aexpr(d) } }
+    fn k1(&mut self, kw: &str, arg: String) -> String { format!("{}{}{}", self.g.kw(kw), self.g.sp(), arg) }
+    fn list_of(&mut self, n: usize, mut f: impl FnMut(&mut Self) -> String) -> String {
+        let mut s = String::new();
+        for i in 0..n { if i > 0 { s += ","; s += self.g.sp(); } s += &f(self); }
+        s
+    }
+    fn data_item(&mut self) -> String {
+        match self.g.r.below(8) {
+            0 => { let t = self.g.text(8, &[0x00, 0x22], true, false); format!("\"{}\"", t) }
+            1 => {
+                // literal: first char not blank/quote/comma/colon
+                let first = (b'A' + self.g.r.below(26) as u8) as char;
+                let t = self.g.text(8, &[0x00, 0x22, 0x3a, 0x2c], false, true);
+                format!("{}{}", first, t)
+            }
+            2 => format!("{}{}", self.g.r.pick(&["", "-", "+", "- "]), self.g.r.below(70000)),
+            3 => format!("{}{}", self.g.r.pick(&["", "-", "+"]), { let r = self.real(); r.to_uppercase() }),
+            4 => String::new(),
+            5 => format!(" {} ", self.g.r.below(100)),
+            6 => { let t = self.g.text(5, &[0x00, 0x22, 0x3a, 0x2c], false, false); format!("{}{} ", self.g.case("Item"), t) }
+            _ => self.g.case("literal with blanks"),
+        }
+    }
+    /// (statement, is_terminal) — terminal statements (REM, unterminated string) must end the line
+    fn stmt(&mut self, d: usize) -> (String, bool) {
+        let k = self.g.r.below(62);
+        let s = match k {
+            0 | 1 | 2 => {
+                let l = if self.g.r.chance(25) { self.g.kw("LET") + self.g.sp() } else { String::new() };
+                if self.g.r.chance(35) { format!("{}{}{}={}{}", l, self.svar(0), self.g.sp(), self.g.sp(), self.sexpr(0)) }
+                else { format!("{}{}{}={}{}", l, self.avar(0), self.g.sp(), self.g.sp(), self.aexpr(0)) }
+            }
+            3 => { let a = self.aexpr(1); let mut s = self.k1("CALL", a); if self.g.r.chance(20) { s += ","; s += &self.expr(1); } s }
+            4 => self.g.kw("CLEAR"),
+            5 => { let a = self.aexpr(1); self.k1("COLOR=", a) }
+            6 => {
+                let kw = *self.g.r.pick(&["CLEAR", "CONT", "END", "FLASH", "GR", "HGR", "HGR2", "HOME", "INVERSE", "LOAD", "NEW", "NORMAL", "NOTRACE",
+                    "POP", "RESTORE", "RESUME", "RETURN", "SAVE", "SHLOAD", "STOP", "TEXT", "TRACE"]);
+                self.g.kw(kw)
+            }
+            7 | 8 => {
+                let n = 1 + self.g.r.below(4);
+                let items = self.list_of(n, |s| s.data_item());
+                let pad = if self.g.r.chance(50) { " " } else { "" };
+                let tail = *self.g.r.pick(&["", "", " ", "  "]);
+                format!("{}{}{}{}", self.g.kw("DATA"), pad, items, tail)
+            }
+            9 => format!("{}{}{}{}{}({})={}", self.g.kw("DEF"), self.g.sp(), self.g.kw("FN"), self.g.sp(), self.g.name(), self.g.name(), self.aexpr(1)),
+            10 => format!("{}{}{},{}", self.g.kw("DEL"), self.g.sp(), self.g.linenum(), self.g.linenum()),
+            11 => { let n = 1 + self.g.r.below(3); let l = self.list_of(n, |s| { let mut v = s.g.name(); match s.g.r.below(3) { 0 => v += "%", 1 => v += "$", _ => {} }; v + &s.subscript(1) }); self.k1("DIM", l) }
+            12 | 13 => {
+                let kw = *self.g.r.pick(&["DRAW", "XDRAW"]);
+                let a = self.aexpr(1); let mut s = self.k1(kw, a);
+                if self.g.r.chance(50) { s += &format!("{}{}{}{},{}", self.g.sp(), self.g.kw("AT"), self.g.sp(), self.aexpr(1), self.aexpr(1)); }
+                s
+            }
+            14 | 15 => {
+                let mut s = format!("{}{}{}{}={}{}{}{}{}{}", self.g.kw("FOR"), self.g.sp(), self.g.name(), self.g.sp(), self.g.sp(), self.aexpr(1), self.g.sp(), self.g.kw("TO"), self.g.sp(), self.aexpr(1));
+                if self.g.r.chance(40) { s += &format!("{}{}{}{}", self.g.sp(), self.g.kw("STEP"), self.g.sp(), self.aexpr(1)); }
+                s
+            }
+            16 => { let n = 1 + self.g.r.below(3); let l = self.list_of(n, |s| s.var(1)); self.k1("GET", l) }
+            17 | 18 => { let kw = *self.g.r.pick(&["GOSUB", "GOTO"]); let l = self.g.linenum(); self.k1(kw, l) }
+            19 => { let kw = *self.g.r.pick(&["HCOLOR=", "HIMEM:", "LOMEM:", "HTAB", "VTAB", "IN#", "PR#", "ROT=", "SCALE=", "SPEED="]); let a = self.aexpr(1); self.k1(kw, a) }
+            20 | 21 => {
+                let kw = *self.g.r.pick(&["HLIN", "VLIN"]);
+                format!("{}{}{},{}{}{}{}{}", self.g.kw(kw), self.g.sp(), self.aexpr(1), self.aexpr(1), self.g.sp(), self.g.kw("AT"), self.g.sp(), self.aexpr(1))
+            }
+            22 | 23 => {
+                let mut s = self.g.kw("HPLOT") + self.g.sp();
+                if self.g.r.chance(30) { s += &self.g.kw("TO"); s += self.g.sp(); }
+                s += &format!("{},{}", self.aexpr(1), self.aexpr(1));
+                for _ in 0..self.g.r.below(3) { s += &format!("{}{}{}{},{}", self.g.sp(), self.g.kw("TO"), self.g.sp(), self.aexpr(1), self.aexpr(1)); }
+                s
+            }
+            24 | 25 | 26 => {
+                let c = self.expr(1);
+                let head = format!("{}{}{}{}", self.g.kw("IF"), self.g.sp(), c, self.g.sp());
+                match self.g.r.below(3) {
+                    0 => format!("{}{}{}{}", head, self.g.kw("THEN"), self.g.sp(), self.g.linenum()),
+                    1 => format!("{}{}{}{}", head, self.g.kw("GOTO"), self.g.sp(), self.g.linenum()),
+                    _ => {
+                        if d < 2 { let (st, term) = self.stmt(d + 1); return (format!("{}{}{}{}", head, self.g.kw("THEN"), self.g.sp(), st), term); }
+                        format!("{}{}{}{}", head, self.g.kw("THEN"), self.g.sp(), self.g.kw("RETURN"))
+                    }
+                }
+            }
+            27 | 28 => {
+                let mut s = self.g.kw("INPUT") + self.g.sp();
+                if self.g.r.chance(50) { s += &self.strlit(true); s += ";"; }
+                let n = 1 + self.g.r.below(3);
+                s + &self.list_of(n, |s| s.var(1))
+            }
+            29 => {
+                let mut s = self.g.kw("LIST");
+                match self.g.r.below(5) {
+                    0 => {}
+                    1 => { s += self.g.sp(); s += &self.g.linenum(); }
+                    2 => { s += &format!(" {}-{}", self.g.linenum(), self.g.linenum()); }
+                    3 => { s += &format!(" {},{}", self.g.linenum(), self.g.linenum()); }
+                    _ => { s += &format!(" {}-", self.g.linenum()); }
+                }
+                s
+            }
+            30 | 31 => { let mut s = self.g.kw("NEXT"); let n = self.g.r.below(3); if n > 0 { s += self.g.sp(); s += &self.list_of(n, |s| s.g.name()); } s }
+            32 | 33 => {
+                let kw = *self.g.r.pick(&["GOTO", "GOSUB"]);
+                let n = 1 + self.g.r.below(4);
+                format!("{}{}{}{}{}{}{}", self.g.kw("ON"), self.g.sp(), self.aexpr(1), self.g.sp(), self.g.kw(kw), self.g.sp(), self.list_of(n, |s| s.g.linenum()))
+            }
+            34 => format!("{}{}{}{}{}", self.g.kw("ONERR"), self.g.sp(), self.g.kw("GOTO"), self.g.sp(), self.g.linenum()),
+            35 | 36 => { let kw = *self.g.r.pick(&["PLOT", "POKE"]); format!("{}{}{},{}", self.g.kw(kw), self.g.sp(), self.aexpr(1), self.aexpr(1)) }
+            37..=42 => {
+                let mut s = if self.g.r.chance(15) { "?".to_string() } else { self.g.kw("PRINT") };
+                s += self.g.sp();
+                for _ in 0..self.g.r.below(5) {
+                    match self.g.r.below(8) {
+                        0 => s += ",",
+                        1 | 2 => s += ";",
+                        3 => { let f = *self.g.r.pick(&["TAB(", "SPC("]); s += &format!("{}{})", self.g.kw(f), self.aexpr(2)); s += ";"; }
+                        _ => { s += &self.expr(1); if self.g.r.chance(60) { s += ";"; } else { s += self.g.sp(); } }
+                    }
+                }
+                if self.g.r.chance(12) { s += &self.strlit(false); return (s, true); }
+                s
+            }
+            43 => { let n = 1 + self.g.r.below(3); let l = self.list_of(n, |s| s.var(1)); self.k1("READ", l) }
+            44 => { let kw = *self.g.r.pick(&["RECALL", "STORE"]); let mut v = self.g.name(); if self.g.r.chance(30) { v += "%"; } self.k1(kw, v) }
+            45..=48 => {
+                let t = self.g.text(16, &[0x00], true, true);
+                let pad = *self.g.r.pick(&["", " ", " ", "  "]);
+                let s = format!("{}{}{}", self.g.kw("REM"), pad, t);
+                return (s, true);
+            }
+            49 => { let mut s = self.g.kw("RUN"); if self.g.r.chance(50) { s += self.g.sp(); s += &self.g.linenum(); } s }
+            50 => { let mut s = format!("{}{}{},{}", self.g.kw("WAIT"), self.g.sp(), self.aexpr(1), self.aexpr(1)); if self.g.r.chance(40) { s += ","; s += &self.aexpr(1); } s }
+            51..=54 => {
+                // ampersand forms
+                match self.g.r.below(6) {
+                    0 => format!("&{}{}", self.g.sp(), self.strlit(true)),
+                    1 => format!("&{}({})", self.g.sp(), self.list_of(2, |s| s.expr(1))),
+                    2 => format!("&{}{}({})", self.g.sp(), self.g.name(), self.list_of(2, |s| s.expr(1))),
+                    3 => { let kw = *self.g.r.pick(&["PRINT", "DRAW", "HOME", "GET", "LIST"]); format!("&{}{}{}", self.g.sp(), self.g.kw(kw), self.list_of(1, |s| s.expr(1))) }
+                    4 => format!("&{}{}", self.g.sp(), self.g.name()),
+                    _ => format!("&{}{};{}", self.g.sp(), self.g.name(), self.list_of(2, |s| s.expr(1))),
+                }
+            }
+            _ => {
+                if self.g.r.chance(35) { format!("{}{}={}{}", self.svar(0), self.g.sp(), self.g.sp(), self.sexpr(0)) }
+                else { format!("{}{}={}{}", self.avar(0), self.g.sp(), self.g.sp(), self.aexpr(0)) }
+            }
+        };
+        (s, false)
+    }
+    fn line(&mut self, num: u16) -> String {
+        let mut s = String::new();
+        if self.g.r.chance(10) { s += " "; }
+        s += &num.to_string();
+        s += *self.g.r.pick(&[" ", " ", "", "  "]);
+        if self.g.r.chance(4) { s += ":"; }
+        let n = 1 + self.g.r.below(3);
+        for i in 0..n {
+            let (st, term) = self.stmt(0);
+            s += &st;
+            if term { break; }
+            if i + 1 < n { s += self.g.sp(); s += if self.g.r.chance(6) { "::" } else { ":" }; s += self.g.sp(); }
+            else if self.g.r.chance(5) { s += ":"; }
+        }
+        if self.g.r.chance(8) { s += "  "; }
+        s
+    }
+}
+
+fn line_numbers(r: &mut Rng, n: usize, max: usize) -> Vec<u16> {
+    let mut v = Vec::new();
+    let style = r.below(4);
+    let mut cur = r.below(100);
+    for _ in 0..n {
+        match style {
+            0 | 1 => { v.push(cur.min(max) as u16); cur += 1 + r.below(30); }
+            2 => v.push(r.below(max + 1) as u16),               // any order, duplicates possible
+            _ => { v.push(cur.min(max) as u16); if r.chance(70) { cur += 10; } }
+        }
+    }
+    v
+}
+
+fn pick_addr(r: &mut Rng) -> u16 {
+    match r.below(10) {
+        0 | 1 | 2 => 0x801,
+        3 => *r.pick(&[0x0000u16, 0x0001, 0x00ff, 0x0100, 0x0803, 0x4000, 0x6000]),
+        4 => *r.pick(&[0xFFF0u16, 0xFF00, 0xFFFF, 0xFFFA, 0xFE00, 0xFFD0]),
+        _ => (r.next() & 0xffff) as u16,
+    }
+}
+
+// ------------------------------------------------------------------------------------------------
+
+fn run_applesoft(ctx: &mut Ctx, rng: &mut Rng) {
+    let n = ctx.n(5000, 40000);
+    for idx in 0..n {
+        let mut r = rng.fork(idx as u64);
+        if !ctx.out.wants(idx) { continue; }
+        let nlines = 1 + r.below(6);
+        let nums = line_numbers(&mut r, nlines, 63999);
+        let addr = pick_addr(&mut r);
+        let mut ag = AG { g: Gen::new(r.fork(1)) };
+        let mut src = String::new();
+        let whole = r.chance(10); // sometimes keep lines the parser rejects (whole program is then skipped)
+        let mut kept = Vec::new();
+        for (i, n) in nums.iter().enumerate() {
+            let mut l = ag.line(*n);
+            let mut tries = 0;
+            while !whole && tries < 6 && !accepted_a(&l) { ctx.out.count("applesoft/line-rejected"); l = ag.line(*n); tries += 1; }
+            if !whole && !accepted_a(&l) { continue; }
+            kept.push(*n);
+            src += &l;
+            src += if r.chance(10) { "\r\n" } else { "\n" };
+            if r.chance(4) && i + 1 < nums.len() { src += "\n"; }
+        }
+        if kept.is_empty() { ctx.out.count("applesoft/no-accepted-line"); continue; }
+        applesoft_case(ctx, idx, &src, addr, Some(&kept));
+    }
+}
+
+fn applesoft_case(ctx: &mut Ctx, idx: usize, src: &str, addr: u16, nums: Option<&[u16]>) {
+    let case = format!("idx={} lang=applesoft addr={} src={:?}", idx, addr, src);
+    if !accepted_a(src) {
+        ctx.out.count("applesoft/rejected-by-verify");
+        if std::env::var("A2V_C14_DEBUG").is_ok() { for l in src.lines() { if !accepted_a(l) { eprintln!("REJ-A {:?}", l); } } }
+        return;
+    }
+    let t0 = match tok_a(src, 2049) {
+        Ok(Ok(t)) => t,
+        Ok(Err(_)) => { ctx.out.count("applesoft/rejected-by-tokenize"); return; }
+        Err(p) => { ctx.out.oracle(false, "tokenize-no-panic", &psig(&p), &case); return; }
+    };
+    ctx.out.count("applesoft/accepted");
+    ctx.out.sample(&case);
+    let lines0 = match split_a(&t0) {
+        Some(l) => l,
+        None => { ctx.out.oracle(false, "structure", "c14/applesoft/stream-not-line-structured", &case); return; }
+    };
+    // framing at the requested load address: model assembleA vs real tokenize
+    let treal = tok_a(src, addr);
+    let req = format!("c14 asmA {} {}", addr, lines0.iter().map(|(n, b)| format!("{}:{}", n, hx(b))).collect::<Vec<_>>().join(" "));
+    let ans = match &treal { Ok(Ok(t)) => format!("ok {}", hx(t)), Ok(Err(_)) => "err".to_string(), Err(_) => "panic".to_string() };
+    ctx.out.q(&req, &ans);
+    let (t, base) = match treal {
+        Ok(Ok(t)) => (t, addr),
+        _ => {
+            // address arithmetic overflowed u16 (debug profile): the program does not fit below 64K at this address
+            let fits = addr as usize + t0.len() - 2 <= 65535;
+            if fits { ctx.out.oracle(false, "tokenize-at-address", "c14/applesoft/tokenize-fails-at-address", &case); return; }
+            ctx.out.count("applesoft/address-overflow-panic");
+            (t0.clone(), 2049u16)
+        }
+    };
+    // structure
+    let walked = walk_links_a(&t, base as usize);
+    let scanned: Option<Vec<u16>> = split_a(&t).map(|l| l.iter().map(|x| x.0).collect());
+    let expect_nums: Vec<u16> = match nums { Some(n) => n.to_vec(), None => scanned.clone().unwrap_or_default() };
+    let structure_ok = walked.is_some() && walked == scanned && walked.as_deref() == Some(&expect_nums[..]);
+    ctx.out.oracle(structure_ok, "structure", if walked.is_none() { "c14/applesoft/link-field-wrong" } else { "c14/applesoft/line-numbers-wrong" }, &case);
+    ctx.out.q(&format!("c14 wfA {} {}", base, hx(&t)), &format!("true {}", nat_list(&expect_nums)));
+    // detokenize
+    let d = detok_a(&t);
+    ctx.out.q(&format!("c14 detokA {}", hx(&t)), &show_detok(&d));
+    let s = match d {
+        Ok(Ok(s)) => s,
+        Ok(Err(_)) => { ctx.out.oracle(false, "detokenize", "c14/applesoft/detokenize-refuses", &case); return; }
+        Err(p) => { ctx.out.oracle(false, "detokenize", &psig(&p), &case); return; }
+    };
+    // re-readable and faithful
+    let long_line = lines0.iter().any(|(_, b)| b.len() >= 255);
+    let many = lines0.len() > 5000;
+    if long_line { ctx.out.count("applesoft/line-over-255-bytes"); }
+    let acc = accepted_a(&s);
+    ctx.out.oracle(acc, "reaccepted", if long_line { "c14/applesoft/long-line-detokenized-rejected" } else { "c14/applesoft/detokenized-rejected" }, &case);
+    let same_text = norm_code_a(src) == norm_code_a(&s);
+    ctx.out.oracle(same_text, "listing-text", "c14/applesoft/listing-text-differs", &format!("{} detok={:?}", case, s));
+    if acc {
+        match tok_a(&s, 2049) {   // bodies do not depend on the load address; 2049 avoids the 64K overflow
+            Ok(Ok(t2)) => {
+                let a: Option<Vec<(u16, Vec<u8>)>> = split_a(&t).map(|l| l.into_iter().map(|(n, b)| (n, strip_head_a(&b))).collect());
+                let b: Option<Vec<(u16, Vec<u8>)>> = split_a(&t2).map(|l| l.into_iter().map(|(n, b)| (n, strip_head_a(&b))).collect());
+                let same = a.is_some() && a == b;
+                let sig = if long_line || many { "c14/applesoft/long-line-retokenize-differs" } else { "c14/applesoft/retokenize-differs" };
+                ctx.out.oracle(same, "roundtrip", sig, &format!("{} detok={:?}", case, s));
+                if t2 == t { ctx.out.count("applesoft/roundtrip-identical"); } else if same { ctx.out.count("applesoft/roundtrip-modulo-head-blanks"); }
+            }
+            Ok(Err(_)) => ctx.out.oracle(false, "roundtrip", "c14/applesoft/detokenized-not-tokenizable", &case),
+            Err(p) => ctx.out.oracle(false, "roundtrip", &psig(&p), &case),
+        }
+    }
+    let nontrivial = lines0.iter().any(|(_, b)| b.iter().any(|c| *c >= 128 || *c == 0x22));
+    for (_, b) in &lines0 {
+        if b.contains(&0x83) { ctx.out.count("applesoft/lines-with-DATA"); }
+        if b.contains(&0xB2) { ctx.out.count("applesoft/lines-with-REM"); }
+        if b.contains(&0x22) { ctx.out.count("applesoft/lines-with-string"); }
+    }
+    ctx.out.count_n("applesoft/lines", lines0.len() as u64);
+    ctx.out.case(src.as_bytes(), nontrivial);
+}
+
+// ---- Integer BASIC -----------------------------------------------------------------------------
+
+struct IG { g: Gen }
+impl IG {
+    fn iname(&mut self) -> String {
+        let n = if self.g.r.chance(85) { self.g.r.pick(&["A", "B", "I", "J", "K", "X", "Y", "Z", "X1", "Y2", "N9", "Q", "ZZ", "C3", "W8", "PI", "SUM", "CNT", "LEVEL", "HIGH", "BALL", "SCORE", "TOTAL"]).to_string() } else { self.g.name() };
+        self.g.case(&n)
+    }
+    fn sname(&mut self) -> String { self.iname() + "$" }
+    fn int(&mut self) -> String { self.g.int(32767) }
+    fn strlit(&mut self) -> String { format!("\"{}\"", self.g.text(10, &[0x01, 0x29, 0x22], true, false)) }
+    fn avar(&mut self, d: usize) -> String {
+        let n = self.iname();
+        if self.g.r.chance(20) && d < 3 { format!("{}({})", n, self.aexpr(d + 1)) } else { n }
+    }
+    fn svar(&mut self, d: usize) -> String {
+        let n = self.sname();
+        if self.g.r.chance(15) && d < 3 { format!("{}({})", n, self.aexpr(d + 1)) } else { n }
+    }
+    fn sexpr(&mut self, d: usize) -> String {
+        match self.g.r.below(4) {
+            0 | 1 => self.strlit(),
+            2 => self.svar(d),
+            _ => if d < 3 { format!("{}({},{})", self.sname(), self.aexpr(d + 1), self.aexpr(d + 1)) } else { self.sname() },
+        }
+    }
+    fn aexpr(&mut self, d: usize) -> String {
+        let k = if d >= 3 { self.g.r.below(3) } else { self.g.r.below(11) };
+        match k {
+            0 | 1 => self.int(),
+            2 | 3 => self.avar(d),
+            4 => { let f = *self.g.r.pick(&["ABS", "PDL", "PEEK", "RND", "SGN"]); format!("{}{}({})", self.g.kw(f), self.g.sp(), self.aexpr(d + 1)) }
+            5 => match self.g.r.below(3) {
+                0 => format!("{}{})", self.g.kw("LEN("), self.sexpr(d + 1)),
+                1 => format!("{}{})", self.g.kw("ASC("), self.sexpr(d + 1)),
+                _ => format!("{}{},{})", self.g.kw("SCRN("), self.aexpr(d + 1), self.aexpr(d + 1)),
+            },
+            6 => { let op = *self.g.r.pick(&["-", "+", "NOT"]); format!("{}{}{}", self.g.kw(op), self.g.sp(), self.aexpr(d + 1)) }
+            7 | 8 => {
+                let op = *self.g.r.pick(&["+", "-", "*", "/", "^", "MOD", "AND", "OR", "=", "#", "<", ">", "<=", ">=", "<>"]);
+                format!("{}{}{}{}{}", self.aexpr(d + 1), self.g.sp(), self.g.kw(op), self.g.sp(), self.aexpr(d + 1))
+            }
+            9 => { let op = *self.g.r.pick(&["=", "#"]); format!("{}{}{}", self.sexpr(d + 1), op, self.sexpr(d + 1)) }
+            _ => format!("({})", self.aexpr(d + 1)),
+        }
+    }
+    fn k1(&mut self, kw: &str, arg: String) -> String { format!("{}{}{}", self.g.kw(kw), self.g.sp(), arg) }
+    fn stmt(&mut self, d: usize) -> (String, bool) {
+        let k = self.g.r.below(44);
+        let s = match k {
+            0 | 1 | 2 => {
+                let l = if self.g.r.chance(25) { self.g.kw("LET") + self.g.sp() } else { String::new() };
+                if self.g.r.chance(30) { format!("{}{}{}={}{}", l, self.svar(0), self.g.sp(), self.g.sp(), self.sexpr(0)) }
+                else { format!("{}{}{}={}{}", l, self.avar(0), self.g.sp(), self.g.sp(), self.aexpr(0)) }
+            }
+            3 => { let kw = *self.g.r.pick(&["CALL", "COLOR=", "GOSUB", "GOTO", "IN#", "PR#", "TAB", "VTAB", "HIMEM:", "LOMEM:"]); let a = self.aexpr(1); self.k1(kw, a) }
+            4 => { let kw = *self.g.r.pick(&["END", "GR", "TEXT", "RETURN", "POP", "TRACE", "NOTRACE", "LIST", "CLR", "NEW", "CON", "RUN", "MAN", "LOAD", "SAVE"]); self.g.kw(kw) }
+            5 | 6 => {
+                let mut s = self.g.kw("DIM") + self.g.sp();
+                for i in 0..1 + self.g.r.below(3) {
+                    if i > 0 { s += ","; }
+                    let n = if self.g.r.chance(40) { self.sname() } else { self.iname() };
+                    s += &format!("{}({})", n, self.aexpr(2));
+                }
+                s
+            }
+            7 => { let kw = *self.g.r.pick(&["DSP", "NODSP"]); let n = if self.g.r.chance(40) { self.sname() } else { self.iname() }; self.k1(kw, n) }
+            8 | 9 => {
+                let mut s = format!("{}{}{}{}={}{}{}{}{}{}", self.g.kw("FOR"), self.g.sp(), self.iname(), self.g.sp(), self.g.sp(), self.aexpr(1), self.g.sp(), self.g.kw("TO"), self.g.sp(), self.aexpr(1));
+                if self.g.r.chance(40) { s += &format!("{}{}{}{}", self.g.sp(), self.g.kw("STEP"), self.g.sp(), self.aexpr(1)); }
+                s
+            }
+            10 | 11 => { let kw = *self.g.r.pick(&["HLIN", "VLIN"]); format!("{}{}{},{}{}{}{}{}", self.g.kw(kw), self.g.sp(), self.aexpr(1), self.aexpr(1), self.g.sp(), self.g.kw("AT"), self.g.sp(), self.aexpr(1)) }
+            12 | 13 | 14 => {
+                let head = format!("{}{}{}{}{}{}", self.g.kw("IF"), self.g.sp(), self.aexpr(1), self.g.sp(), self.g.kw("THEN"), self.g.sp());
+                if self.g.r.chance(40) || d >= 2 { format!("{}{}", head, self.aexpr(2)) }
+                else { let (st, term) = self.stmt(d + 1); return (format!("{}{}", head, st), term); }
+            }
+            15 | 16 => {
+                let mut s = self.g.kw("INPUT") + self.g.sp();
+                if self.g.r.chance(40) { s += &self.strlit(); s += ","; }
+                for i in 0..1 + self.g.r.below(3) { if i > 0 { s += ","; } if self.g.r.chance(30) { s += &self.svar(1); } else { s += &self.avar(1); } }
+                s
+            }
+            17 => format!("{}{}{},{}", self.g.kw("LIST"), self.g.sp(), self.int(), self.int()),
+            18 => { let f = *self.g.r.pick(&["DEL", "AUTO", "RUN", "LIST"]); format!("{} {}", self.g.kw(f), self.int()) }
+            19 | 20 => { let mut s = self.g.kw("NEXT") + self.g.sp(); for i in 0..1 + self.g.r.below(2) { if i > 0 { s += ","; } s += &self.iname(); } s }
+            21 | 22 => { let kw = *self.g.r.pick(&["PLOT", "POKE"]); format!("{}{}{},{}", self.g.kw(kw), self.g.sp(), self.aexpr(1), self.aexpr(1)) }
+            23..=29 => {
+                let mut s = self.g.kw("PRINT");
+                let n = self.g.r.below(5);
+                if n > 0 { s += self.g.sp(); }
+                for i in 0..n {
+                    if i > 0 { s += *self.g.r.pick(&[";", ";", ",", ";;", ",;"]); }
+                    if self.g.r.chance(45) { s += &self.sexpr(1); } else { s += &self.aexpr(1); }
+                }
+                if n > 0 && self.g.r.chance(25) { s += *self.g.r.pick(&[";", ","]); }
+                s
+            }
+            30..=33 => {
+                let t = self.g.text(16, &[0x01], true, true);
+                let pad = *self.g.r.pick(&["", " ", " ", "  "]);
+                return (format!("{}{}{}", self.g.kw("REM"), pad, t), true);
+            }
+            _ => {
+                if self.g.r.chance(30) { format!("{}{}={}{}", self.svar(0), self.g.sp(), self.g.sp(), self.sexpr(0)) }
+                else { format!("{}{}={}{}", self.avar(0), self.g.sp(), self.g.sp(), self.aexpr(0)) }
+            }
+        };
+        (s, false)
+    }
+    fn line(&mut self, num: u16) -> String {
+        let mut s = String::new();
+        if self.g.r.chance(10) { s += " "; }
+        s += &num.to_string();
+        s += *self.g.r.pick(&[" ", " ", "", "  "]);
+        let n = 1 + self.g.r.below(3);
+        for i in 0..n {
+            let (st, term) = self.stmt(0);
+            s += &st;
+            if term || i + 1 == n { break; }
+            s += self.g.sp(); s += ":"; s += self.g.sp();
+        }
+        if self.g.r.chance(8) { s += " "; }
+        s
+    }
+}
+
+fn run_integer(ctx: &mut Ctx, rng: &mut Rng) {
+    let n = ctx.n(5000, 40000);
+    for k in 0..n {
+        let idx = 100000 + k;
+        let mut r = rng.fork(idx as u64);
+        if !ctx.out.wants(idx) { continue; }
+        let nlines = 1 + r.below(6);
+        let nums = line_numbers(&mut r, nlines, 32767);
+        let mut ig = IG { g: Gen::new(r.fork(1)) };
+        let mut src = String::new();
+        let whole = r.chance(10);
+        let mut kept = Vec::new();
+        for n in nums.iter() {
+            let mut l = ig.line(*n);
+            let mut tries = 0;
+            while !whole && tries < 6 && !accepted_i(&l) { ctx.out.count("integer/line-rejected"); l = ig.line(*n); tries += 1; }
+            if !whole && !accepted_i(&l) { continue; }
+            kept.push(*n);
+            src += &l;
+            src += if r.chance(10) { "\r\n" } else { "\n" };
+        }
+        if kept.is_empty() { ctx.out.count("integer/no-accepted-line"); continue; }
+        integer_case(ctx, idx, &src, Some(&kept));
+    }
+}
+
+fn integer_case(ctx: &mut Ctx, idx: usize, src: &str, nums: Option<&[u16]>) {
+    let case = format!("idx={} lang=integer src={:?}", idx, src);
+    if !accepted_i(src) {
+        ctx.out.count("integer/rejected-by-verify");
+        if std::env::var("A2V_C14_DEBUG").is_ok() { for l in src.lines() { if !accepted_i(l) { eprintln!("REJ-I {:?}", l); } } }
+        return;
+    }
+    let t = match tok_i(src) {
+        Ok(Ok(t)) => t,
+        Ok(Err(_)) => { ctx.out.count("integer/rejected-by-tokenize"); return; }
+        Err(p) => { ctx.out.oracle(false, "tokenize-no-panic", &psig(&p), &case); return; }
+    };
+    ctx.out.count("integer/accepted");
+    ctx.out.sample(&case);
+    let walked = walk_len_i(&t);
+    let expect_nums: Vec<u16> = match (nums, &walked) { (Some(n), _) => n.to_vec(), (None, Some(w)) => w.iter().map(|x| x.0).collect(), _ => vec![] };
+    let structure_ok = match &walked { Some(w) => w.iter().map(|x| x.0).collect::<Vec<_>>() == expect_nums, None => false };
+    ctx.out.oracle(structure_ok, "structure", if walked.is_none() { "c14/integer/line-length-wrong" } else { "c14/integer/line-numbers-wrong" }, &case);
+    if let Some(w) = &walked {
+        ctx.out.q(&format!("c14 asmI {}", w.iter().map(|(n, b)| format!("{}:{}", n, hx(b))).collect::<Vec<_>>().join(" ")), &format!("ok {}", hx(&t)));
+    }
+    ctx.out.q(&format!("c14 wfI {}", hx(&t)), &format!("true {}", nat_list(&expect_nums)));
+    let d = detok_i(&t);
+    ctx.out.q(&format!("c14 detokI {}", hx(&t)), &show_detok(&d));
+    let s = match d {
+        Ok(Ok(s)) => s,
+        Ok(Err(_)) => { ctx.out.oracle(false, "detokenize", "c14/integer/detokenize-refuses", &case); return; }
+        Err(p) => { ctx.out.oracle(false, "detokenize", &psig(&p), &case); return; }
+    };
+    let acc = accepted_i(&s);
+    ctx.out.oracle(acc, "reaccepted", &classify_i(&t, "c14/integer/detokenized-rejected"), &format!("{} detok={:?}", case, s));
+    if acc {
+        match tok_i(&s) {
+            Ok(Ok(t2)) => {
+                let a = walk_len_i(&t).map(|l| l.into_iter().map(|(n, b)| (n, strip_head_i(&b))).collect::<Vec<_>>());
+                let b = walk_len_i(&t2).map(|l| l.into_iter().map(|(n, b)| (n, strip_head_i(&b))).collect::<Vec<_>>());
+                let same = a.is_some() && a == b;
+                ctx.out.oracle(same, "roundtrip", &classify_i(&t, "c14/integer/retokenize-differs"), &format!("{} detok={:?}", case, s));
+                if t2 == t { ctx.out.count("integer/roundtrip-identical"); } else if same { ctx.out.count("integer/roundtrip-modulo-head-blanks"); }
+            }
+            Ok(Err(_)) => ctx.out.oracle(false, "roundtrip", &classify_i(&t, "c14/integer/detokenized-not-tokenizable"), &case),
+            Err(p) => ctx.out.oracle(false, "roundtrip", &psig(&p), &case),
+        }
+    }
+    if let Some(w) = &walked {
+        for (_, b) in w {
+            if b.contains(&0x5D) { ctx.out.count("integer/lines-with-REM"); }
+            if b.contains(&0x28) { ctx.out.count("integer/lines-with-string"); }
+        }
+        ctx.out.count_n("integer/lines", w.len() as u64);
+    }
+    ctx.out.case(src.as_bytes(), t.len() > 5);
+}
+
+// ---- Merlin ------------------------------------------------------------------------------------
+
+fn merlin_line(r: &mut Rng) -> String {
+    let labels = ["START", "LOOP", ":L1", "]VAR", "DONE", "PTR", "MSG", "COUT", "A1L"];
+    let ops = ["LDA", "STA", "JSR", "JMP", "BNE", "BEQ", "LDX", "LDY", "INX", "DEY", "RTS", "CLC", "ADC", "SBC", "CMP", "AND", "ORA", "EOR", "PHA", "PLA", "NOP", "BCC", "BCS", "INC", "DEC"];
+    let args = ["#$00", "#$FF", "$FDED", "PTR", "(PTR),Y", "$C000,X", "#<MSG", "#>MSG", "LOOP", ":L1", "#'A'", "#\"A\"", "PTR+1", "$10", "($20,X)", "#%01010101", "]VAR"];
+    let cmts = ["; comment", ";load it", "; a b  c", ";"];
+    match r.below(12) {
+        0 => format!("* {}", r.pick(&["heading comment", "---", " spaced  out", "*****"])),
+        1 => r.pick(&cmts).to_string(),
+        2 => format!("{} EQU {}", r.pick(&labels[..1]), r.pick(&["$300", "$FDED", "$06", "*"])),
+        3 => format!(" ORG {}", r.pick(&["$300", "$8000", "$2000"])),
+        4 => format!("{} ASC {}", r.pick(&["MSG", ""]), r.pick(&["\"HELLO WORLD\"", "'hello'", "\"A B\",00", "\"X\""])),
+        5 => format!(" {} {}", r.pick(&["HEX", "DFB", "DA", "DS"]), r.pick(&["00", "01", "10"])),
+        _ => {
+            let implied = ["INX", "DEY", "RTS", "CLC", "PHA", "PLA", "NOP"];
+            let lab = if r.chance(40) { r.pick(&labels).to_string() } else { String::new() };
+            let op = *r.pick(&ops);
+            let sep1 = *r.pick(&[" ", "  ", "\t", "   "]);
+            let mut s = format!("{}{}{}", lab, sep1, op);
+            if !implied.contains(&op) { s += *r.pick(&[" ", "  ", "\t"]); s += *r.pick(&args); }
+            if r.chance(35) { s += *r.pick(&[" ", "   ", "\t"]); s += *r.pick(&cmts); }
+            s
+        }
+    }
+}
+
+fn run_merlin(ctx: &mut Ctx, rng: &mut Rng) {
+    let n = ctx.n(1200, 10000);
+    for k in 0..n {
+        let idx = 200000 + k;
+        let mut r = rng.fork(idx as u64);
+        if !ctx.out.wants(idx) { continue; }
+        let mut src = String::new();
+        for _ in 0..1 + r.below(6) {
+            src += &merlin_line(&mut r);
+            src += "\n";
+            if r.chance(5) { src += "\n"; }
+        }
+        let case = format!("idx={} lang=merlin src={:?}", idx, src);
+        if !accepted_m(&src) { ctx.out.count("merlin/rejected-by-verify"); continue; }
+        let t = match tok_m(&src) {
+            Ok(Ok(t)) => t,
+            Ok(Err(_)) => { ctx.out.count("merlin/rejected-by-tokenize"); continue; }
+            Err(p) => { ctx.out.oracle(false, "tokenize-no-panic", &psig(&p), &case); continue; }
+        };
+        ctx.out.count("merlin/accepted");
+        ctx.out.sample(&case);
+        // structure: negative ASCII except blanks, every line ends in 8D
+        let shape = t.iter().all(|b| *b >= 0x80 || *b == 0x20) && t.last() == Some(&0x8d)
+            && t.iter().filter(|b| **b == 0x8d).count() == src.lines().count();
+        ctx.out.oracle(shape, "structure", "c14/merlin/stream-shape-wrong", &case);
+        match detok_m(&t) {
+            Ok(Ok(s)) => {
+                let acc = accepted_m(&s);
+                ctx.out.oracle(acc, "reaccepted", "c14/merlin/detokenized-rejected", &format!("{} detok={:?}", case, s));
+                if acc {
+                    match tok_m(&s) {
+                        Ok(Ok(t2)) => ctx.out.oracle(t2 == t, "roundtrip", "c14/merlin/retokenize-differs", &format!("{} detok={:?}", case, s)),
+                        Ok(Err(_)) => ctx.out.oracle(false, "roundtrip", "c14/merlin/detokenized-not-tokenizable", &case),
+                        Err(p) => ctx.out.oracle(false, "roundtrip", &psig(&p), &case),
+                    }
+                }
+            }
+            Ok(Err(_)) => ctx.out.oracle(false, "detokenize", "c14/merlin/detokenize-refuses", &case),
+            Err(p) => ctx.out.oracle(false, "detokenize", &psig(&p), &case),
+        }
+        ctx.out.case(src.as_bytes(), t.iter().any(|b| *b == 0xa0));
+    }
+}
+
+// ---- raw streams: detokenizers on arbitrary bytes (model vs implementation only) ------------------
+
+fn run_raw(ctx: &mut Ctx, rng: &mut Rng) {
+    let seeds_a: [&str; 6] = ["10 PRINT \"HELLO\":REM hi\n20 DATA 1,\"a:b\",c : GOTO 10\n", "10 FOR I=1 TO 10:NEXT\n", "1 REM \\x5Cx41\\\\\n",
+        "10 A$=\"\\x0d\\x8d\"+CHR$(4):IF A THEN 10\n", "5 ?\"unterminated\n", "10 DATA \"q\"\"r\", lit : REM x\n"];
+    let seeds_i: [&str; 5] = ["10 PRINT \"HELLO\";A,B$\n20 REM hi there\n", "10 FOR I=1 TO 10:NEXT I\n", "1 IF A#1 THEN 10:A=LEN(B$)+ASC(\"A\")\n",
+        "10 DIM A$(10),B(5):INPUT \"X\",A$\n", "32767 A=32767:B=-1\n"];
+    let n = ctx.n(6000, 60000);
+    for k in 0..n {
+        let idx = 300000 + k;
+        let mut r = rng.fork(idx as u64);
+        if !ctx.out.wants(idx) { continue; }
+        let applesoft = k % 2 == 0;
+        let base: Vec<u8> = if applesoft {
+            tok_a(*r.pick(&seeds_a), 2049).ok().and_then(|x| x.ok()).unwrap_or_default()
+        } else {
+            tok_i(*r.pick(&seeds_i)).ok().and_then(|x| x.ok()).unwrap_or_default()
+        };
+        let mut t = base.clone();
+        match r.below(8) {
+            0 => { let n = r.below(40); t = r.bytes(n); }
+            1 => { let n = r.below(t.len() + 1); t.truncate(n); }
+            2 | 3 => { for _ in 0..1 + r.below(3) { if !t.is_empty() { let i = r.below(t.len()); t[i] = r.byte(); } } }
+            4 => { if !t.is_empty() { let i = r.below(t.len()); t[i] = *r.pick(&[0u8, 1, 0x22, 0x28, 0x29, 0x5c, 0xdc, 0xf8, 0x78, 0xb2, 0x83, 0x5d, 0xff, 0x80, 0xb0, 0x3a]); } }
+            5 => { if !t.is_empty() { let i = r.below(t.len()); let k = 1 + r.below(4); let ins = r.bytes(k); for (j, b) in ins.iter().enumerate() { t.insert(i + j, *b); } } }
+            6 => {
+                // escape-related tails
+                let tails: [&[u8]; 12] = [&[0x28, 0x80, 0xA2, 0xE1, 0xFA, 0xFB, 0x29, 0x01], &[0x5D, 0xA2, 0xEB, 0x80, 0x01], &[0x28, 0xdc, 0xf8, 0x01], &[0x5D, 0xdc, 0xf8, 0xb4, 0x29, 0x01, 0x05],&[0x22, 0x41], &[0x5c, 0x78, 0x34], &[0x5c, 0x78, 0x34, 0x31], &[0x28, 0xc1], &[0xdc, 0xf8, 0xb4, 0x01], &[0x28, 0xdc, 0xf8, 0xb4, 0xb1, 0x29, 0x01],
+                    &[0x28, 0xdc, 0xf8, 0x34, 0xb1, 0x29, 0x01], &[0xb2, 0x5c, 0x78, 0x41, 0x42, 0x00, 0x00, 0x00]];
+                let n = r.below(t.len() + 1); t.truncate(n); t.extend_from_slice(*r.pick(&tails));
+            }
+            _ => { if t.len() > 2 { let n = t.len() - 1 - r.below(2); t.truncate(n); } }
+        }
+        if applesoft {
+            let d = detok_a(&t);
+            ctx.out.count(&format!("raw/applesoft/{}", show_detok(&d).split(' ').next().unwrap_or("")));
+            ctx.out.q(&format!("c14 detokA {}", hx(&t)), &show_detok(&d));
+        } else {
+            let d = detok_i(&t);
+            ctx.out.count(&format!("raw/integer/{}", show_detok(&d).split(' ').next().unwrap_or("")));
+            ctx.out.q(&format!("c14 detokI {}", hx(&t)), &show_detok(&d));
+        }
+        ctx.out.case(&t, t != base);
+    }
+}
+
+
+// ---- fixed seeds: hand-written programs (always run first) ----------------------------------------
+
+fn run_fixed(ctx: &mut Ctx) {
+    let a: [(&str, u16); 14] = [
+        ("10 PRINT CHR$(4);\"PREFIX\": INPUT PR$\n", 2049),
+        ("10 HOME\n20 PRI NT \"HELLO\"  ", 2049),
+        ("10 DATA aliteral, \"a string\", 1  : PRINT A$\n", 2049),
+        ("10 data 1.5 e 4 , 100000: print a$\n", 0x4000),
+        ("10 x = 1e6*(fn cub(x0) + (atn(x1) + cos(x2))*5)\n", 0),
+        ("10 if x then a$ = a$ + \"hello\n", 2049),
+        ("10 hgr: hcolor=2\n20 x=5:y=5\n30 plot x,y\r\n40 hplot to x+5,y+5", 2049),
+        ("10 print \"\\x0d1\\x0d2\\x0a\\x0a\"", 2049),
+        ("10 data \":\",\\x5Cxff : rem \\\\\\\\", 2049),
+        ("10 rem \\x0a\\x0aAAA\\x0a\\x0a", 2049),
+        ("10 & PR USNG > \"0.00\";A$", 2049),
+        ("10 FOR I = A TO B: HLIN 1,2 AT N: SCORE = TOTAL + 1\n", 0x801),
+        ("100 REM\n90 REM  two blanks\n90 DATA   x\n", 0xFFF0),
+        ("10 HOME\n20 PRINT\n", 0xFFF0),
+    ];
+    for (i, (src, addr)) in a.iter().enumerate() {
+        let idx = 400000 + i;
+        if ctx.out.wants(idx) { applesoft_case(ctx, idx, src, *addr, None); }
+    }
+    let i_: [&str; 12] = [
+        // defects found by this family (see design/C14.md): lower case / NUL / quote via escape, is_hex underflow
+        "93 REM  f\\xebmUUZ \n", "10 PRINT \"A\\x80B\"\n", "10 PRINT \"A\\xa2B\"\n", "61 REM X\n71 REM YG \\\\xf8\n81 END\n",
+        "10 PRINT \"HELLO\"\n", "10 FOR I = 1 TO 10: PRINT I: NEXT I\n", "20 IF A#1 AND B>=2 THEN 100\n", "30 DIM A$(20),B(5): A$=\"X\"\n",
+        "40 REM  lower case remark\\x8a\n", "50 PRINT A$(1,2);LEN(A$);ASC(\"Q\")\n", "32767 GOTO 32767\n", "10 input \"name\",n$: print \"hi \";n$\n",
+    ];
+    for (i, src) in i_.iter().enumerate() {
+        let idx = 410000 + i;
+        if ctx.out.wants(idx) { integer_case(ctx, idx, src, None); }
+    }
+}
+
+/// Escapes that produce a byte which is structural in its own context (00, the closing quote, the
+/// DATA colon, the Integer EOL) cannot be represented by the token format; such sources are outside
+/// the generated language.  They are only *counted* here (distribution keys `edge/...`), so that the
+/// evidence shows what a2kit does with them; they are not oracle verdicts.
+fn run_edge(ctx: &mut Ctx) {
+    if ctx.out.only.is_some() { return; }
+    let a = ["10 PRINT \"A\\x00B\"\n", "10 PRINT \"A\\x22B\"\n", "10 REM A\\x00B\n", "10 DATA A\\x3aB\n", "10 DATA \\x22A:B\n"];
+    for src in a.iter() {
+        if !accepted_a(src) { ctx.out.count("edge/applesoft/structural-escape/rejected"); continue; }
+        let ok = match tok_a(src, 2049) {
+            Ok(Ok(t)) => match detok_a(&t) { Ok(Ok(s)) => accepted_a(&s) && matches!(tok_a(&s, 2049), Ok(Ok(ref t2)) if *t2 == t), _ => false },
+            _ => false,
+        };
+        ctx.out.count(if ok { "edge/applesoft/structural-escape/roundtrip-ok" } else { "edge/applesoft/structural-escape/roundtrip-fails" });
+    }
+    let i = ["10 PRINT \"A\\x01B\"\n", "10 PRINT \"A\\x29B\"\n", "10 REM A\\x01B\n"];
+    for src in i.iter() {
+        if !accepted_i(src) { ctx.out.count("edge/integer/structural-escape/rejected"); continue; }
+        let ok = match tok_i(src) {
+            Ok(Ok(t)) => match detok_i(&t) { Ok(Ok(s)) => accepted_i(&s) && matches!(tok_i(&s), Ok(Ok(ref t2)) if *t2 == t), _ => false },
+            _ => false,
+        };
+        ctx.out.count(if ok { "edge/integer/structural-escape/roundtrip-ok" } else { "edge/integer/structural-escape/roundtrip-fails" });
+    }
+}
+
+pub fn run(ctx: &mut Ctx) {
+    let mut rng = Rng::new(ctx.seed);
+    run_fixed(ctx);
+    run_edge(ctx);
+    let mut ra = rng.fork(1);
+    run_applesoft(ctx, &mut ra);
+    let mut ri = rng.fork(2);
+    run_integer(ctx, &mut ri);
+    let mut rm = rng.fork(3);
+    run_merlin(ctx, &mut rm);
+    let mut rr = rng.fork(4);
+    run_raw(ctx, &mut rr);
+}
